@@ -67,7 +67,7 @@ func (c *SimClock) resetBracket() { c.any = false }
 //go:norace
 func nowHook() time.Time {
 	c := simClock
-	t := c.now
+	t := c.now.In(time.Local) // like time.Now: the instant, presented in the process zone
 	c.reads++
 	if !c.any || t.Before(c.lo) {
 		c.lo = t
